@@ -2,8 +2,10 @@
    without reference to the Go code.  A flat tree (absolute clean path -> inode number), an inode
    table (directories and regular files; an inode survives the removal of its name while handles
    are open on it), handles bound to inodes.  No child index, no names stored in inodes, no
-   clock.  Outcomes are projected to what the property speaks about: the outcome CLASS of every
-   call, the bytes read, the counts written, directory listings, kinds and sizes. *)
+   clock.  Every call that takes a name resolves it first (pthrough_file: ENOTDIR).  Outcomes are
+   projected to what the property speaks about: the outcome CLASS of every call (success,
+   not-exist, exists, closed, not-a-directory, other), the bytes read, the counts written,
+   directory listings, kinds and sizes. *)
 From AF Require Import Lib.Bytes Lib.Path Lib.Ops Gen.Consts Model.ByteFile.
 Local Open Scope Z_scope.
 
@@ -18,7 +20,7 @@ Record pfs := mkP { ptree : list (str * nat); pinodes : list inode; phandles : l
 Definition p_init : pfs := mkP [(s_slash, 0%nat)] [IDir 493] [].
 
 (* outcome classes of the property *)
-Inductive pclass := CNotExist | CExist | CClosed | COther.
+Inductive pclass := CNotExist | CExist | CClosed | CNotDir (* ENOTDIR *) | COther.
 
 (* projected results *)
 Inductive pout :=
@@ -46,6 +48,21 @@ Definition pnode_at (t : pfs) (k : str) : option inode :=
   match plookup t k with Some i => pinode t i | None => None end.
 Definition pis_dir (t : pfs) (k : str) : bool :=
   match pnode_at t k with Some (IDir _) => true | _ => false end.
+Definition pis_file (t : pfs) (k : str) : bool :=
+  match pnode_at t k with Some (IFile _ _) => true | _ => false end.
+
+(* ---------- path resolution ----------
+   The kernel resolves a name component by component from the root; a component that is not a
+   directory, with more of the name still to come, ends the walk with ENOTDIR, a missing one with
+   ENOENT.  The tree is closed under parents (a name exists only inside an existing directory), so
+   nothing exists below a regular file: if some proper ancestor of k is a regular file, every
+   ancestor above it is a directory and the walk ends exactly there, with ENOTDIR — before the last
+   component of k is looked at, whatever the call (open, creat, mkdir, rename, unlink, stat, chmod, ...)
+   and whether or not intermediate components between that file and k are "missing".
+   Measured on Linux 6.18 / ext4 with os.OpenFile, os.Mkdir, os.MkdirAll, os.Rename, os.Remove,
+   os.RemoveAll, os.Stat, os.Chmod, os.Chown, os.Chtimes (work/osprobe, REPORT-c01p.md). *)
+Definition pthrough_file (t : pfs) (k : str) : bool :=
+  existsb (fun kv => pbelow (fst kv) k && pis_file t (fst kv)) (ptree t).
 
 Definition set_tree (t : pfs) (tr : list (str * nat)) : pfs := mkP tr (pinodes t) (phandles t).
 Definition set_inode (t : pfs) (i : nat) (x : inode) : pfs := mkP (ptree t) (list_set i x (pinodes t)) (phandles t).
@@ -91,23 +108,31 @@ Definition p_step (t : pfs) (o : op) : pfs * pout :=
                        | _ => if negb neg && pclosed h then (t, PFail CClosed) else (t, PFail COther)
                        end) in
   let seth (i : nat) (h : phandle) : pfs := set_phandle t i h in
+  (* every call that takes a name resolves it first (pthrough_file): ENOTDIR, nothing changes *)
+  let notdir : pfs * pout := (t, PFail CNotDir) in
   match o with
   | Mkdir p perm =>
       let k := normalize_path p in
+      if pthrough_file t k then notdir else
       match plookup t k with
       | Some _ => (t, PFail CExist)
       | None => if pis_dir t (pparent k) then (padd t k (IDir (Z.land perm chmod_bits)), PSucc)
-                else match plookup t (pparent k) with Some _ => (t, PFail COther) | None => (t, PFail CNotExist) end
+                else (t, PFail CNotExist)
       end
   | MkdirAll p perm =>
+      (* os.MkdirAll: nil if the name is a directory, ENOTDIR if it is a regular file; otherwise the
+         ancestors first — which meets the regular file on the way, if there is one, before anything
+         is created *)
       let k := normalize_path p in
+      if pthrough_file t k then notdir else
       match pnode_at t k with
       | Some (IDir _) => (t, PSucc)
-      | Some (IFile _ _) => (t, PFail COther)
+      | Some (IFile _ _) => (t, PFail CNotDir)
       | None => (p_mkchain (S (length k)) t k (Z.land perm chmod_bits), PSucc)
       end
   | Create p =>
       let k := normalize_path p in
+      if pthrough_file t k then notdir else
       match plookup t k, pnode_at t k with
       | Some i, Some (IFile _ pm) => popen (set_inode t i (IFile [] pm)) i false     (* truncated in place *)
       | Some _, _ => (t, PFail COther)
@@ -116,6 +141,7 @@ Definition p_step (t : pfs) (o : op) : pfs * pout :=
                    else (t, PFail CNotExist)
       end
   | Open p =>
+      if pthrough_file t (normalize_path p) then notdir else
       match plookup t (normalize_path p) with
       | Some i => popen t i true
       | None => (t, PFail CNotExist)
@@ -123,6 +149,7 @@ Definition p_step (t : pfs) (o : op) : pfs * pout :=
   | OpenFile p flag perm =>
       let k := normalize_path p in
       let ro := Z.land flag 3 =? 0 in
+      if pthrough_file t k then notdir else
       match plookup t k, pnode_at t k with
       | Some i, Some x =>
           if fl flag o_create && fl flag o_excl then (t, PFail CExist)
@@ -140,6 +167,7 @@ Definition p_step (t : pfs) (o : op) : pfs * pout :=
       end
   | Remove p =>
       let k := normalize_path p in
+      if pthrough_file t k then notdir else
       match pnode_at t k with
       | None => (t, PFail CNotExist)
       | Some (IFile _ _) => (set_tree t (alist_del k (ptree t)), PSucc)
@@ -148,10 +176,16 @@ Definition p_step (t : pfs) (o : op) : pfs * pout :=
       end
   | RemoveAll p =>
       let k := normalize_path p in
+      if pthrough_file t k then notdir else
       (set_tree t (filter (fun kv => negb (patbelow k (fst kv))) (ptree t)), PSucc)
   | Rename p q =>
+      (* rename(2) resolves the directory of the source, then the directory of the target, and only
+         then looks for the source itself *)
       let old := normalize_path p in
       let new := normalize_path q in
+      if pthrough_file t old then notdir else
+      if negb (pis_dir t (pparent old)) then (t, PFail CNotExist) else
+      if pthrough_file t new then notdir else
       match plookup t old with
       | None => (t, PFail CNotExist)
       | Some _ =>
@@ -160,6 +194,7 @@ Definition p_step (t : pfs) (o : op) : pfs * pout :=
                                 (alist_del new (ptree t))), PSucc)
       end
   | Stat p =>
+      if pthrough_file t (normalize_path p) then notdir else
       match pnode_at t (normalize_path p) with
       | Some (IDir _) => (t, PStat true None)
       | Some (IFile d _) => (t, PStat false (Some (length d)))
@@ -167,12 +202,14 @@ Definition p_step (t : pfs) (o : op) : pfs * pout :=
       end
   | Chmod p m =>
       let k := normalize_path p in
+      if pthrough_file t k then notdir else
       match plookup t k, pnode_at t k with
       | Some i, Some (IDir _) => (set_inode t i (IDir (Z.land m chmod_bits)), PSucc)
       | Some i, Some (IFile d _) => (set_inode t i (IFile d (Some (Z.land m chmod_bits))), PSucc)
       | _, _ => (t, PFail CNotExist)
       end
   | Chown p _ _ | Chtimes p _ =>
+      if pthrough_file t (normalize_path p) then notdir else
       match plookup t (normalize_path p) with Some _ => (t, PSucc) | None => (t, PFail CNotExist) end
   (* ---- handle I/O: the flat byte array of Model/ByteFile.v, per inode ---- *)
   | HRead i n => with_file i false (fun h d pm =>
@@ -250,6 +287,7 @@ Definition class_of_err (e : err) : pclass :=
   | KNotExist | KENOENT => CNotExist
   | KExist => CExist
   | KClosed => CClosed
+  | KENOTDIR | KNotADir => CNotDir
   | _ => COther
   end.
 Definition eof_err (e : err) : bool := match ek e with KEOF | KUnexpectedEOF => true | _ => false end.
